@@ -95,7 +95,14 @@ def judge(case):
     for rel, css in files.items():
         if osh.has_error(osh.normal(css)):
             raise HarnessError(f"generated sheet does not parse cleanly: {css!r}")
-    run = cli.run_cli(files, target, settings, audit=True)
+    setup = None
+    link = case.get("symlink")  # (link path, target path relative to the link's directory)
+    if link:
+        def setup(root, link=link):
+            lp = os.path.join(root, link[0])
+            os.makedirs(os.path.dirname(lp), exist_ok=True)
+            os.symlink(link[1], lp)
+    run = cli.run_cli(files, target, settings, audit=True, setup=setup)
     if run["exit"] != 0 or run["exception"]:
         raise Violation("cli-failed", f"cm-colors exited {run['exit']} ({run['exception']}); stderr {run['stderr'][-300:]!r}; {what}")
     if "Error processing" in run["stderr"]:
@@ -108,7 +115,7 @@ def judge(case):
         if after[rel] != before[rel]:
             raise Violation("input-modified", f"{rel} changed from {before[rel]} to {after[rel]}; {what}")
     # (ii) created paths
-    processed = sorted(files)
+    processed = sorted(files) if not link else [link[0]]
     adjusted_total = run["counts"]["adjusted"]
     expected = {cli.out_name(rel) for rel in processed}
     if adjusted_total > 0:
@@ -132,7 +139,7 @@ def judge(case):
     for c in run["cards"]:
         cards_by_file.setdefault(c["file"], []).append(c)
     n_adjusted_rules = 0
-    for rel, css in files.items():
+    for rel, css in ([(link[0], next(iter(files.values())))] if link else files.items()):
         out = run["texts"][cli.out_name(rel)]
         try:
             out_css = out.decode("utf-8")
@@ -171,11 +178,16 @@ def judge(case):
 @st.composite
 def strategy(draw):
     knobs = {"shared_vars": False, "carry": True}
-    shape = draw(st.sampled_from(["file", "file", "dir", "dot", "dir2"]))
+    shape = draw(st.sampled_from(["file", "file", "dir", "dot", "dir2", "symlink"]))
     s1 = draw(sheets.sheet(knobs=knobs))["css"]
     name1 = draw(st.sampled_from(["s.css", "main.css", "a b.css", "ünï.css", "x_cm_y.css", "theme.min.css"]))
     if shape == "file":
         files, target = {name1: s1}, name1
+    elif shape == "symlink":
+        # the stylesheet is reached through a symbolic link: the output belongs beside the path that was given
+        files, target = {os.path.join("shared", "base.css"): s1}, os.path.join("site", name1)
+        return {"files": files, "settings": draw(sheets.cli_settings()), "target": target, "shape": shape,
+                "symlink": (os.path.join("site", name1), os.path.join("..", "shared", "base.css"))}
     elif shape == "dot":
         files, target = {name1: s1}, "."
     elif shape == "dir":
